@@ -17,7 +17,8 @@ package main
 //
 // observation: one token per step that observes something
 //         U -> u=<status>:<grant|->:<cost>:<resDelta>:<ccr seq consumed|0|?>:<elapsed ms>:<done>
-//         C -> c=<established connections to the two peers>:<goroutines above baseline, bucketed>:<the same, raw>:<go-diameter watchdog goroutines alive>
+//         C -> c=<established connections to the two peers>:<goroutines above baseline, bucketed>:<the same, raw>:<go-diameter watchdog goroutines alive>:<goroutines running (or started by) an answer handler HandleSUA/HandleCCA>
+//         D<k> -> from now on every answer reaches the CHF k times (through a relay, see relay.go)
 //
 // Every account-balance request of the scenario tops the reservation up by an amount that is a sum of a run
 // of distinct powers of two, so the amount identifies the request whose answer the CHF acted upon.
@@ -32,6 +33,7 @@ import (
 	"strconv"
 	"strings"
 	"sync"
+	"sync/atomic"
 	"time"
 
 	"go.mongodb.org/mongo-driver/bson"
@@ -178,8 +180,25 @@ func init() {
 
 // established TCP connections whose remote port is one of the two peers' ports (the client side of the
 // CHF's Diameter connections; both ends live in this process, the server side has the port as local port)
+// sockets of this process (inode numbers): /proc/self/net/tcp lists the whole network namespace, and another
+// process's connection may by chance have one of our port numbers as its remote (ephemeral) port
+func ownSockets() map[string]bool {
+	own := map[string]bool{}
+	ents, err := os.ReadDir("/proc/self/fd")
+	if err != nil {
+		return nil
+	}
+	for _, e := range ents {
+		if l, err := os.Readlink("/proc/self/fd/" + e.Name()); err == nil && strings.HasPrefix(l, "socket:[") {
+			own[strings.TrimSuffix(strings.TrimPrefix(l, "socket:["), "]")] = true
+		}
+	}
+	return own
+}
+
 func peerConns() int {
 	n := 0
+	own := ownSockets()
 	for _, f := range []string{"/proc/self/net/tcp"} {
 		b, err := os.ReadFile(f)
 		if err != nil {
@@ -187,7 +206,10 @@ func peerConns() int {
 		}
 		for i, l := range strings.Split(string(b), "\n") {
 			fs := strings.Fields(l)
-			if i == 0 || len(fs) < 4 || fs[3] != "01" {
+			if i == 0 || len(fs) < 10 || fs[3] != "01" {
+				continue
+			}
+			if own != nil && !own[fs[9]] {
 				continue
 			}
 			rp := strings.Split(fs[2], ":")
@@ -195,7 +217,7 @@ func peerConns() int {
 				continue
 			}
 			port, _ := strconv.ParseInt(rp[1], 16, 32)
-			if int(port) == rfPort || int(port) == abmfPort {
+			if (!relaying && (int(port) == rfPort || int(port) == abmfPort)) || (relaying && (int(port) == relayRfPort || int(port) == relayAbmfPort)) {
 				n++
 			}
 		}
@@ -230,6 +252,11 @@ func runPeer(line string, t []string) string {
 		return "bad-op"
 	}
 	steps := p.t
+	for _, s := range steps {
+		if strings.HasPrefix(s, "D") {
+			useRelay()
+		}
+	}
 	sc := &peerScript{byGoid: map[uint64]*ccrLog{}}
 	peerMu.Lock()
 	peerScripts[supi] = sc
@@ -325,6 +352,11 @@ func runPeer(line string, t []string) string {
 			sc.mu.Unlock()
 		case 'W':
 			time.Sleep(time.Duration(arg) * time.Millisecond)
+		case 'D':
+			if arg < 1 || arg > 8 {
+				return "bad-op"
+			}
+			atomic.StoreInt32(&relayCopies, int32(arg))
 		case 'U':
 			if hung {
 				out = append(out, "u=skipped")
@@ -363,7 +395,14 @@ func runPeer(line string, t []string) string {
 			}
 			// go-diameter's per-connection watchdog tasks still running (no connection is open by now)
 			wd := strings.Count(stacks, "sm.(*Client).watchdog(")
-			out = append(out, fmt.Sprintf("c=%d:%s:%d:%d", peerConns()-baseConns, gb, g, wd))
+			// answer handlers of the CHF's clients that have not returned
+			hd := 0
+			for _, g := range strings.Split(stacks, "\n\n") {
+				if strings.Contains(g, "HandleSUA.func") || strings.Contains(g, "HandleCCA.func") {
+					hd++
+				}
+			}
+			out = append(out, fmt.Sprintf("c=%d:%s:%d:%d:%d", peerConns()-baseConns, gb, g, wd, hd))
 		default:
 			return "bad-op"
 		}
@@ -398,11 +437,15 @@ func genPeer(o genOpts, w *bufio.Writer) {
 		}
 		scen(strings.Join(sb, " ") + " W2000 C")
 	}
+	// a peer that repeats its answers (prompt and late ones)
+	scen("D3 U100 U228 D2 U484 C")
+	scen(fmt.Sprintf("D3 A%d U100 W3000 U228 U484 C", late))
+	scen(fmt.Sprintf("D2 R0 R0 R%d U100 U228 W3000 U484 C", late))
 	// C19: an account-balance answer later than the client's timeout, then a prompt peer
-	scen(fmt.Sprintf("A%d U100 U228 C", late))                    // next request at once: the late answer arrives while it is over
-	scen(fmt.Sprintf("A%d U100 W3000 U228 U484 C", late))         // late answer arrives while nothing is in progress
-	scen(fmt.Sprintf("A%d A2500 U100 U228 U484 C", late))         // late answer of #1 arrives while #2 waits for its own
-	scen(fmt.Sprintf("A%d U100 W500 U228 W3000 U484 C", never))   // lost answer
+	scen(fmt.Sprintf("A%d U100 U228 C", late))                  // next request at once: the late answer arrives while it is over
+	scen(fmt.Sprintf("A%d U100 W3000 U228 U484 C", late))       // late answer arrives while nothing is in progress
+	scen(fmt.Sprintf("A%d A2500 U100 U228 U484 C", late))       // late answer of #1 arrives while #2 waits for its own
+	scen(fmt.Sprintf("A%d U100 W500 U228 W3000 U484 C", never)) // lost answer
 	// the same for the rating peer (three rating requests per update)
 	scen(fmt.Sprintf("R%d U100 U228 C", late))
 	scen(fmt.Sprintf("R0 R0 R%d U100 W3000 U228 U484 C", late))
@@ -413,6 +456,9 @@ func genPeer(o genOpts, w *bufio.Writer) {
 		var sb []string
 		vol := 100
 		k := 2 + r.intn(3)
+		if r.chance(30) {
+			sb = append(sb, fmt.Sprintf("D%d", r.pick(2, 3, 4)))
+		}
 		for j := 0; j < k; j++ {
 			for q := 0; q < r.intn(3); q++ {
 				d := r.pick(0, 0, 800, 2500, late, late, never)
